@@ -314,6 +314,24 @@ Definition r_recv (s : rstate) (av : list N) : rres :=
   | R_CRC => r_crcst s av
   end.
 
+(* ------------------------------------------------------------------ RobeWidget: label dispatch *)
+(* RobeWidgetImpl::HandleMessage switches on the label of every frame BaseRobeWidget delivers; the
+   table ROBE_DISPATCH is regenerated from the source text.  Without a pending RDM request only
+   HandleDmxFrame (handler 3) is observable: m_buffer.Set(data, length) — which keeps the old contents
+   when the frame carries no data (data == NULL) and truncates to 512 slots — followed by the DMX
+   callback.  Frames with any other label, known or unknown, deliver nothing and change nothing. *)
+Definition robe_handler (label : N) : N :=
+  match find (fun p => fst p =? label) ROBE_DISPATCH with Some p => snd p | None => 0 end.
+Fixpoint robe_dispatch (buf : list N) (ms : list msg) : list msg :=
+  match ms with
+  | [] => []
+  | (l, pl) :: r =>
+    if robe_handler l =? 3 then
+      let buf1 := match pl with [] => buf | _ :: _ => take 512 pl end in
+      (l, buf1) :: robe_dispatch buf1 r
+    else robe_dispatch buf r
+  end.
+
 (* ------------------------------------------------------------------ Open Pixel Control (OPCServer) *)
 (* o_data = RxState::data[0 .. offset), o_cap = RxState::buffer_size *)
 Record ostate := { o_data : list N; o_cap : N }.
@@ -612,6 +630,35 @@ Fixpoint ref_acn_f (fuel : nat) (blk : option (N * N)) (s : list N) : list msg :
     end
   end.
 Definition ref_acn (s : list N) : list msg := ref_acn_f (Datatypes.S (length s)) None s.
+
+(* ------------------------------------------------------------------ ACN root layer (RootInflator) *)
+(* What a real RootInflator (BaseInflator::InflatePDUBlock / DecodeLength / DecodeVector / InflatePDU,
+   RootInflator::DecodeHeader) makes of the single PDU the TCP transport hands it.  The block holds
+   exactly that PDU and its length field was already decoded by the transport, so the inflator always
+   reports the whole block consumed (which is what a_handle assumes of the inflator): a PDU it cannot
+   use is skipped, it never invalidates the stream.  ResetPDUFields() runs at the start of every
+   block, so there is no vector or CID to inherit: a PDU is passed on only if it carries both a
+   vector (V flag, 4 bytes) and a header (H flag, the 16-byte CID), and only to a child inflator
+   registered for that vector (reg); otherwise BaseInflator::HandlePDUData logs and drops it.
+   A delivery to a child inflator is (vector, CID ++ data). *)
+Definition vflag (b0 : N) : bool := negb (N.land b0 ACN_VFLAG_MASK =? 0).
+Definition hflag (b0 : N) : bool := negb (N.land b0 ACN_HFLAG_MASK =? 0).
+Definition root_pdu (reg : N -> bool) (pdu : list N) : list msg :=
+  match pdu with
+  | [] => []
+  | b0 :: _ =>
+    let ls := if lflag b0 then ACN_THREE_BYTES else ACN_TWO_BYTES in
+    let body := drop ls pdu in
+    if negb (vflag b0) then []
+    else if len body <? ACN_ROOT_VECTOR_SIZE then []
+    else if negb (hflag b0) then []
+    else if len body - ACN_ROOT_VECTOR_SIZE <? ACN_CID_LENGTH then []
+    else
+      let v := be32 body in
+      if reg v then [(v, drop ACN_ROOT_VECTOR_SIZE body)] else []
+  end.
+Definition root_deliver (reg : N -> bool) (pdus : list msg) : list msg :=
+  flat_map (fun m => root_pdu reg (snd m)) pdus.
 
 (* ------------------------------------------------------------------ RPC channel (RpcChannel) *)
 (* Correspondence only in this property (the framing theorem for the channel is c09_dispatch in
